@@ -308,7 +308,7 @@ func c05EscKey(enc int, what string) string {
 
 // c05Doc evaluates the property on one document for the four encoders x three modes x check on/off,
 // and emits correspondence cases for Map.Xml and NewMapXml.
-func c05Doc(run *Run, r *Rng, n *c05ENode) {
+func c05Doc(run *Run, r *Rng, n *c05ENode, fixed bool) {
 	mixed := n.mixed(true)
 	id := func(s string) string { return s }
 	mapV := map[string]interface{}{n.Name: c05MapForm(n, false, id)}
@@ -400,6 +400,11 @@ func c05Doc(run *Run, r *Rng, n *c05ENode) {
 					// escaping off: with the check on a nil error implies well-formed output
 					if chk && !ok {
 						key := c05EscKey(enc, "ill-formed-output-nil-error")
+						if _, terr := tokenize(b, false); terr == nil {
+							// the tokenizer reads the bytes to the end (so the encoder's check passes), yet they are
+							// not a well-formed document: content after the root element
+							key = "content-after-root-accepted"
+						}
 						vio(key, "nil error but the output is not well formed ("+why+")", string(b), "an error or well-formed XML")
 					}
 				case 1:
@@ -451,6 +456,9 @@ func c05Doc(run *Run, r *Rng, n *c05ENode) {
 
 	// ---- correspondence: Map.Xml under a random mode / check, and the decoder under decoder-side escaping
 	mode, chk := r.Intn(3), r.chance(0.5)
+	if fixed {
+		mode, chk = 0, true // the regression documents: escaping off, check on
+	}
 	o := c05ModeOpts(mode, chk)
 	val := mapV
 	if mode == 2 {
@@ -593,6 +601,11 @@ func runC05(cfg runCfg) error {
 	for _, p := range c05EscPieces {
 		c05Esc(run, p, "piece")
 	}
+	// fixed regression documents, every run: an attribute value that closes the tag early, so that the rest
+	// follows the root element as character data (tokenizer-accepted, not well formed)
+	for _, v := range []string{"\"/>", "--\"/>", "\"/>x", "\"></r><r b=\""} {
+		c05Doc(run, r, &c05ENode{Name: "r", Attrs: [][2]string{{"b", v}}}, true)
+	}
 	t, f := true, false
 	args := []*bool{nil, &t, &f}
 	for i := 0; i < cfg.n; i++ {
@@ -619,7 +632,7 @@ func runC05(cfg runCfg) error {
 			}
 			c05Set(run, c)
 		default:
-			c05Doc(run, r, r.c05GenENode("r", 0))
+			c05Doc(run, r, r.c05GenENode("r", 0), false)
 		}
 	}
 	return run.finish()
